@@ -952,6 +952,7 @@ void ExtrapolatedSmootherGive::solveCircleSection(const int i_r, Vector<double>&
     }
     // Move updated values to x
     std::move(temp.begin() + start, temp.begin() + end, x.begin() + start);
+    VERIF_RANGE(x.begin() + start, end - start, true);
 }
 
 void ExtrapolatedSmootherGive::solveRadialSection(const int i_theta, Vector<double>& x, Vector<double>& temp,
@@ -967,6 +968,7 @@ void ExtrapolatedSmootherGive::solveRadialSection(const int i_theta, Vector<doub
     }
     // Move updated values to x
     std::move(temp.begin() + start, temp.begin() + end, x.begin() + start);
+    VERIF_RANGE(x.begin() + start, end - start, true);
 }
 
 // Quick overview:
